@@ -830,6 +830,12 @@ class Gen:
                 if self.structs and r.random() < 0.6:
                     fields.append(("fn", St(r.randrange(1, len(self.structs) + 1)), 0))
             self.structs.append(struct("S%d" % (len(self.structs) + 1), fields))
+            nint = len([f for f in fields if f[1]["k"] == "i" and f[0] != "fsep"])
+            if nint >= 2 and r.random() < 0.35:
+                # some of the integer members sit in an anonymous struct member (not the first ones only: the members that
+                # follow an anonymous member are found by a search that has to leave it again)
+                a0 = r.randrange(0, nint - 1)
+                self.structs[-1]["anon"] = [a0, r.randrange(a0 + 1, nint + (1 if a0 > 0 else 0))]
         if "bfops" in getattr(self, "force", ()):
             # bit-fields at both ends of storage units of every width (a, c, e start a unit; b, d, f end it)
             self.structs.append(struct("SBF", [("a", T("uchar"), 1), ("b", T("uchar"), 7), ("c", T("ushort"), 9), ("d", T("ushort"), 7),
